@@ -213,6 +213,10 @@ def replay(rec, ctx):
     h = rec["h"]
     obj = build(kind, h[0]["par"])
     laser = attach(obj) if kind not in ("constspec", "gaussspec") else None
+    # a second object with the other parameter values lives alongside, untouched: objects share nothing
+    other = build(kind, {p: (v if p == "polarization" else (2 if v == 1 else 1)) for p, v in h[0]["par"].items()})
+    olaser = attach(other) if laser is not None else None
+    other_before = readout(kind, other, olaser)
     outcome = "ok"
     for e in h[1:]:
         outcome = "ok"
@@ -238,9 +242,14 @@ def replay(rec, ctx):
         bad(f"outcome-{outcome}-expected-{rec['outcome']}", json.dumps(h[1:])[:300])
         if outcome.startswith("raised"):
             return viol
+    a = readout(kind, obj, laser)          # read before the twin is constructed
     fresh = build(kind, rec["par"])
     flaser = attach(fresh) if laser is not None else None
-    a, b = readout(kind, obj, laser), readout(kind, fresh, flaser)
+    b = readout(kind, fresh, flaser)
+    other_after = readout(kind, other, olaser)
+    for k in other_before:
+        if not _eq(other_after[k], other_before[k]):
+            bad(f"another-object-changed.{k}", f"an untouched object read {str(other_before[k])[:120]} before and {str(other_after[k])[:120]} after this history")
     for k in b:
         if not _eq(a[k], b[k]):
             bad(f"differs-from-fresh.{k}", f"after history {str(a[k])[:150]} ; fresh {str(b[k])[:150]}")
